@@ -35,6 +35,10 @@ def run_case(case, acc, order):
             'tfeatures': 'absent', 'sample_rate': chunk / 600.0, 'time_dtype': case['time_dtype'],
             'templates': 'sparse' if case.get('short_last') else 'dense',
             'fill': case.get('fill', 0)}
+    if case.get('alf'):
+        # ALF names with the spike times in seconds only: the samples are recovered by rounding
+        # (chunk 21: seconds * rate falls just below the integer for spikes on several chunk bounds)
+        spec.update(naming='alf', alf_samples=False)
     stride = max(1, int(math.ceil(n_chunks / float(n_kept_rule))))
     kept = [(c * chunk, min((c + 1) * chunk, n_raw)) for c in range(0, n_chunks, stride)]
     eligible = {t: [i for i in range(ns) if st[i] == t and any(a <= samples[i] < b for a, b in kept)]
@@ -54,6 +58,7 @@ def run_case(case, acc, order):
                 try:
                     m.save_spikes_subset_waveforms(max_n_spikes_per_template=max_n)
                     ids = sorted(int(x) for x in np.load(str(d / 'ds' / '_phy_spikes_subset.spikes.npy')))
+                    held = sorted(int(x) for x in m.spike_waveforms.spike_ids)
                 except Exception as e:
                     ids = e
                 finally:
@@ -74,6 +79,10 @@ def run_case(case, acc, order):
                             if len(mine) != want:
                                 bad = ('count', {'template': t, 'stored': len(mine), 'expected': want})
                                 break
+                    if not bad and held != ids:
+                        # the selection the model holds after the export is the one it has just stored
+                        bad = ('held-selection-differs-from-the-stored-one', {'stored': ids[:12],
+                                                                              'held': held[:12]})
                 if bad:
                     sig = '%s/model-subset/%s' % (PROP, bad[0])
                     acc.violation(sig, core.make_record(
@@ -130,6 +139,10 @@ def explore(ctx):
                     cases.append({'chunk': chunk, 'n_chunks': n_chunks, 'short_last': short_last,
                                   'thin': 1 if n_chunks <= 26 else 2, 'time_dtype': tdt,
                                   'fill': ctx.seed})
+    for n_chunks in (21, 41):
+        for thin in (1, 2):
+            cases.append({'chunk': 21, 'n_chunks': n_chunks, 'short_last': 0, 'thin': thin,
+                          'time_dtype': 'uint64', 'fill': ctx.seed, 'alf': True})
     ctx.run_cases(run_case, cases, chunk=1, sweep='model-subset-export')
 
 
